@@ -42,8 +42,8 @@ CLAIMS = {
         technique="Lean 4 theorems over the reals about the model of _interp2d/_interp3d (searchsorted cell lookup + separable weights) + bit-exact kernel correspondence over all boundary classes + SciPy oracle",
         text=("Proved over the reals for all strictly increasing axes, value fields and query points of the closed hull: "
               "the 2D/3D result is the separable-weights combination of the grid values around the query (weights >= 0, "
-              "sum 1, synthesised neighbours weight 0) - all 3^d boundary classes at once; 2D corollaries: node value at "
-              "nodes, bounds by the weighted corners, exact reproduction of bilinear functions; fill value outside/NaN "
+              "sum 1, synthesised neighbours weight 0) - all 3^d boundary classes at once; corollaries: node value at "
+              "nodes and bounds by the weighted corners (2D and 3D), exact reproduction of bilinear functions (2D); fill value outside/NaN "
               "for every scalar type. Tied to the code by bit-level correspondence of the kernels on every boundary "
               "class; the public API is compared with SciPy's RegularGridInterpolator, node values, multilinear "
               "fields, cell bounds, single vs list, in interpreter and JIT mode.")),
@@ -53,9 +53,9 @@ CLAIMS = {
         text=("Proved: fill value outside the hull/NaN, vzero*distance in the source cell, exactly 0 at the source (2D "
               "and 3D); for 2D additionally the weights form distance / (convex combination of the corners' apparent "
               "velocities) with zero weight on synthesised neighbours, the zero-time-corner fallback, exactness for "
-              "homogeneous node times and the node value at nodes. The 3D weights form is tied by bit-exact "
-              "correspondence on all 27 classes and checked by the oracle (bounds, homogeneous exactness, nodes, "
-              "source cell) on TraveltimeGrid objects in interpreter and JIT mode.")),
+              "homogeneous node times and the node value at nodes; the 3D weights form (all 27 classes) is proved as well. "
+              "Tied by bit-exact correspondence on all boundary classes and checked by the oracle (bounds, homogeneous "
+              "exactness, nodes, source cell) on TraveltimeGrid objects in interpreter and JIT mode.")),
     "C12": dict(
         category="proof", design_ref="DESIGN.md §8 C12, §5.1",
         technique="index-safety obligations regenerated from the AST of every kernel and discharged by omega in Lean 4 (all shapes at once) + strict-index proxy runs of the real kernels",
